@@ -54,6 +54,14 @@ class SymBuilder:
                 return Str(t=self._sym(StrSort, name, idx))
             if k == "None":
                 return NONE
+            if k == "NDArray":   # a 1-d float array: length + element function
+                from .values import NDArr
+                ln = self._sym(z3.IntSort(), name + ".len", idx)
+                self.wf.append(ln >= 0 if not (idx or self.ctx) else z3.BoolVal(True))
+                self._sym(z3.RealSort(), name + "[]", tuple(idx) + (z3.Int("wfi"),))
+                f = self.symbols[name + "[]"]
+                allidx = self.ctx + tuple(idx)
+                return NDArr(ln, lambda i, f=f, allidx=allidx: Num(f(*allidx, i)), "float64")
             if k.startswith("Opq__"):
                 kind = k[5:]
                 return Opq(kind, self._sym(opaque_sort(kind), name, idx))
